@@ -224,42 +224,42 @@ ARITH == Fam("arith",
   "!0 = !{i32 1}\n",
   "define void @f(i32 %a, i32 %b, float %x, float %y, <4 x i32> %va, <4 x float> %vx, <vscale x 2 x i32> %sa, i1 %c, i8* %p, {i32, float} %agg, [2 x i32] %arr) {\n  {inst}\n  ret void\n}\n",
   << Slot("inst", <<
-       "%r = add i32 %a, %b", "%r = add nuw i32 %a, %b", "%r = add nsw i32 %a, %b", "%r = add nuw nsw i32 %a, %b",
-       "%r = sub i32 %a, %b", "%r = sub nuw nsw i32 %a, %b", "%r = mul i32 %a, %b", "%r = mul nuw nsw i32 %a, %b",
-       "%r = udiv i32 %a, %b", "%r = udiv exact i32 %a, %b", "%r = sdiv i32 %a, %b", "%r = sdiv exact i32 %a, %b",
-       "%r = urem i32 %a, %b", "%r = srem i32 %a, %b",
-       "%r = shl i32 %a, %b", "%r = shl nuw nsw i32 %a, %b", "%r = lshr i32 %a, %b", "%r = lshr exact i32 %a, %b",
-       "%r = ashr i32 %a, %b", "%r = ashr exact i32 %a, %b", "%r = and i32 %a, %b", "%r = or i32 %a, %b", "%r = xor i32 %a, -1",
-       "%r = fneg float %x", "%r = fneg fast float %x", "%r = fneg nnan ninf <4 x float> %vx",
-       "%r = fadd float %x, %y", "%r = fadd fast float %x, %y", "%r = fadd nnan ninf nsz arcp contract afn reassoc float %x, %y",
-       "%r = fsub nsz float %x, %y", "%r = fmul arcp float %x, %y", "%r = fdiv contract float %x, %y", "%r = frem afn float %x, %y",
-       "%r = fadd reassoc <4 x float> %vx, %vx",
-       "%r = add <4 x i32> %va, %va", "%r = add <vscale x 2 x i32> %sa, %sa", "%r = mul <4 x i32> %va, <i32 1, i32 2, i32 3, i32 4>",
-       "%r = icmp eq i32 %a, %b", "%r = icmp ne i32 %a, %b", "%r = icmp ugt i32 %a, %b", "%r = icmp uge i32 %a, %b", "%r = icmp ult i32 %a, %b",
-       "%r = icmp ule i32 %a, %b", "%r = icmp sgt i32 %a, %b", "%r = icmp sge i32 %a, %b", "%r = icmp slt i32 %a, %b", "%r = icmp sle i32 %a, %b",
-       "%r = icmp eq i8* %p, null", "%r = icmp slt <4 x i32> %va, zeroinitializer", "%r = icmp eq <vscale x 2 x i32> %sa, zeroinitializer",
-       "%r = fcmp false float %x, %y", "%r = fcmp oeq float %x, %y", "%r = fcmp ogt float %x, %y", "%r = fcmp oge float %x, %y",
-       "%r = fcmp olt float %x, %y", "%r = fcmp ole float %x, %y", "%r = fcmp one float %x, %y", "%r = fcmp ord float %x, %y",
-       "%r = fcmp ueq float %x, %y", "%r = fcmp ugt float %x, %y", "%r = fcmp uge float %x, %y", "%r = fcmp ult float %x, %y",
-       "%r = fcmp ule float %x, %y", "%r = fcmp une float %x, %y", "%r = fcmp uno float %x, %y", "%r = fcmp true float %x, %y",
-       "%r = fcmp fast olt float %x, %y", "%r = fcmp nnan ninf oeq <4 x float> %vx, %vx",
-       "%r = trunc i32 %a to i8", "%r = zext i32 %a to i64", "%r = sext i32 %a to i64", "%r = trunc <4 x i32> %va to <4 x i8>",
-       "%r = fptrunc float %x to half", "%r = fpext float %x to double", "%r = fptoui float %x to i32", "%r = fptosi float %x to i32",
-       "%r = uitofp i32 %a to float", "%r = sitofp i32 %a to double", "%r = ptrtoint i8* %p to i64", "%r = inttoptr i32 %a to i8*",
-       "%r = bitcast i32 %a to float", "%r = bitcast <4 x i32> %va to <2 x i64>", "%r = addrspacecast i8* %p to i8 addrspace(1)*",
-       "%r = ptrtoint i8* %p to i64, !foo !0",
-       "%r = select i1 %c, i32 %a, i32 %b", "%r = select fast i1 %c, float %x, float %y", "%r = select <4 x i1> zeroinitializer, <4 x i32> %va, <4 x i32> %va",
-       "%r = freeze i32 %a", "%r = freeze <4 x i32> %va",
-       "%r = extractelement <4 x i32> %va, i32 1", "%r = extractelement <vscale x 2 x i32> %sa, i64 0",
-       "%r = insertelement <4 x i32> %va, i32 %a, i32 1", "%r = insertelement <4 x i32> undef, i32 %a, i64 0",
-       "%r = shufflevector <4 x i32> %va, <4 x i32> undef, <4 x i32> <i32 0, i32 1, i32 2, i32 3>",
-       "%r = shufflevector <4 x i32> %va, <4 x i32> %va, <2 x i32> <i32 0, i32 undef>",
-       "%r = shufflevector <4 x i32> %va, <4 x i32> poison, <8 x i32> zeroinitializer",
-       "%r = shufflevector <vscale x 2 x i32> %sa, <vscale x 2 x i32> undef, <vscale x 2 x i32> zeroinitializer",
-       "%r = extractvalue {i32, float} %agg, 0", "%r = extractvalue [2 x i32] %arr, 1",
-       "%r = insertvalue {i32, float} %agg, float %x, 1", "%r = insertvalue {i32, float} undef, i32 %a, 0",
-       "%r = insertvalue {i32, {float, [2 x i32]}} undef, i32 7, 1, 1, 0",
-       "%r = va_arg i8* %p, i32"
+       "%r = add i32 %a, %b\n  store i32 %r, i32* undef", "%r = add nuw i32 %a, %b\n  store i32 %r, i32* undef", "%r = add nsw i32 %a, %b\n  store i32 %r, i32* undef", "%r = add nuw nsw i32 %a, %b\n  store i32 %r, i32* undef",
+       "%r = sub i32 %a, %b\n  store i32 %r, i32* undef", "%r = sub nuw nsw i32 %a, %b\n  store i32 %r, i32* undef", "%r = mul i32 %a, %b\n  store i32 %r, i32* undef", "%r = mul nuw nsw i32 %a, %b\n  store i32 %r, i32* undef",
+       "%r = udiv i32 %a, %b\n  store i32 %r, i32* undef", "%r = udiv exact i32 %a, %b\n  store i32 %r, i32* undef", "%r = sdiv i32 %a, %b\n  store i32 %r, i32* undef", "%r = sdiv exact i32 %a, %b\n  store i32 %r, i32* undef",
+       "%r = urem i32 %a, %b\n  store i32 %r, i32* undef", "%r = srem i32 %a, %b\n  store i32 %r, i32* undef",
+       "%r = shl i32 %a, %b\n  store i32 %r, i32* undef", "%r = shl nuw nsw i32 %a, %b\n  store i32 %r, i32* undef", "%r = lshr i32 %a, %b\n  store i32 %r, i32* undef", "%r = lshr exact i32 %a, %b\n  store i32 %r, i32* undef",
+       "%r = ashr i32 %a, %b\n  store i32 %r, i32* undef", "%r = ashr exact i32 %a, %b\n  store i32 %r, i32* undef", "%r = and i32 %a, %b\n  store i32 %r, i32* undef", "%r = or i32 %a, %b\n  store i32 %r, i32* undef", "%r = xor i32 %a, -1\n  store i32 %r, i32* undef",
+       "%r = fneg float %x\n  store float %r, float* undef", "%r = fneg fast float %x\n  store float %r, float* undef", "%r = fneg nnan ninf <4 x float> %vx\n  store <4 x float> %r, <4 x float>* undef",
+       "%r = fadd float %x, %y\n  store float %r, float* undef", "%r = fadd fast float %x, %y\n  store float %r, float* undef", "%r = fadd nnan ninf nsz arcp contract afn reassoc float %x, %y\n  store float %r, float* undef",
+       "%r = fsub nsz float %x, %y\n  store float %r, float* undef", "%r = fmul arcp float %x, %y\n  store float %r, float* undef", "%r = fdiv contract float %x, %y\n  store float %r, float* undef", "%r = frem afn float %x, %y\n  store float %r, float* undef",
+       "%r = fadd reassoc <4 x float> %vx, %vx\n  store <4 x float> %r, <4 x float>* undef",
+       "%r = add <4 x i32> %va, %va\n  store <4 x i32> %r, <4 x i32>* undef", "%r = add <vscale x 2 x i32> %sa, %sa\n  store <vscale x 2 x i32> %r, <vscale x 2 x i32>* undef", "%r = mul <4 x i32> %va, <i32 1, i32 2, i32 3, i32 4>\n  store <4 x i32> %r, <4 x i32>* undef",
+       "%r = icmp eq i32 %a, %b\n  store i1 %r, i1* undef", "%r = icmp ne i32 %a, %b\n  store i1 %r, i1* undef", "%r = icmp ugt i32 %a, %b\n  store i1 %r, i1* undef", "%r = icmp uge i32 %a, %b\n  store i1 %r, i1* undef", "%r = icmp ult i32 %a, %b\n  store i1 %r, i1* undef",
+       "%r = icmp ule i32 %a, %b\n  store i1 %r, i1* undef", "%r = icmp sgt i32 %a, %b\n  store i1 %r, i1* undef", "%r = icmp sge i32 %a, %b\n  store i1 %r, i1* undef", "%r = icmp slt i32 %a, %b\n  store i1 %r, i1* undef", "%r = icmp sle i32 %a, %b\n  store i1 %r, i1* undef",
+       "%r = icmp eq i8* %p, null\n  store i1 %r, i1* undef", "%r = icmp slt <4 x i32> %va, zeroinitializer\n  store <4 x i1> %r, <4 x i1>* undef", "%r = icmp eq <vscale x 2 x i32> %sa, zeroinitializer\n  store <vscale x 2 x i1> %r, <vscale x 2 x i1>* undef",
+       "%r = fcmp false float %x, %y\n  store i1 %r, i1* undef", "%r = fcmp oeq float %x, %y\n  store i1 %r, i1* undef", "%r = fcmp ogt float %x, %y\n  store i1 %r, i1* undef", "%r = fcmp oge float %x, %y\n  store i1 %r, i1* undef",
+       "%r = fcmp olt float %x, %y\n  store i1 %r, i1* undef", "%r = fcmp ole float %x, %y\n  store i1 %r, i1* undef", "%r = fcmp one float %x, %y\n  store i1 %r, i1* undef", "%r = fcmp ord float %x, %y\n  store i1 %r, i1* undef",
+       "%r = fcmp ueq float %x, %y\n  store i1 %r, i1* undef", "%r = fcmp ugt float %x, %y\n  store i1 %r, i1* undef", "%r = fcmp uge float %x, %y\n  store i1 %r, i1* undef", "%r = fcmp ult float %x, %y\n  store i1 %r, i1* undef",
+       "%r = fcmp ule float %x, %y\n  store i1 %r, i1* undef", "%r = fcmp une float %x, %y\n  store i1 %r, i1* undef", "%r = fcmp uno float %x, %y\n  store i1 %r, i1* undef", "%r = fcmp true float %x, %y\n  store i1 %r, i1* undef",
+       "%r = fcmp fast olt float %x, %y\n  store i1 %r, i1* undef", "%r = fcmp nnan ninf oeq <4 x float> %vx, %vx\n  store <4 x i1> %r, <4 x i1>* undef",
+       "%r = trunc i32 %a to i8\n  store i8 %r, i8* undef", "%r = zext i32 %a to i64\n  store i64 %r, i64* undef", "%r = sext i32 %a to i64\n  store i64 %r, i64* undef", "%r = trunc <4 x i32> %va to <4 x i8>\n  store <4 x i8> %r, <4 x i8>* undef",
+       "%r = fptrunc float %x to half\n  store half %r, half* undef", "%r = fpext float %x to double\n  store double %r, double* undef", "%r = fptoui float %x to i32\n  store i32 %r, i32* undef", "%r = fptosi float %x to i32\n  store i32 %r, i32* undef",
+       "%r = uitofp i32 %a to float\n  store float %r, float* undef", "%r = sitofp i32 %a to double\n  store double %r, double* undef", "%r = ptrtoint i8* %p to i64\n  store i64 %r, i64* undef", "%r = inttoptr i32 %a to i8*\n  store i8* %r, i8** undef",
+       "%r = bitcast i32 %a to float\n  store float %r, float* undef", "%r = bitcast <4 x i32> %va to <2 x i64>\n  store <2 x i64> %r, <2 x i64>* undef", "%r = addrspacecast i8* %p to i8 addrspace(1)*\n  store i8 addrspace(1)* %r, i8 addrspace(1)** undef",
+       "%r = ptrtoint i8* %p to i64, !foo !0\n  store i64 %r, i64* undef",
+       "%r = select i1 %c, i32 %a, i32 %b\n  store i32 %r, i32* undef", "%r = select fast i1 %c, float %x, float %y\n  store float %r, float* undef", "%r = select <4 x i1> zeroinitializer, <4 x i32> %va, <4 x i32> %va\n  store <4 x i32> %r, <4 x i32>* undef",
+       "%r = freeze i32 %a\n  store i32 %r, i32* undef", "%r = freeze <4 x i32> %va\n  store <4 x i32> %r, <4 x i32>* undef",
+       "%r = extractelement <4 x i32> %va, i32 1\n  store i32 %r, i32* undef", "%r = extractelement <vscale x 2 x i32> %sa, i64 0\n  store i32 %r, i32* undef",
+       "%r = insertelement <4 x i32> %va, i32 %a, i32 1\n  store <4 x i32> %r, <4 x i32>* undef", "%r = insertelement <4 x i32> undef, i32 %a, i64 0\n  store <4 x i32> %r, <4 x i32>* undef",
+       "%r = shufflevector <4 x i32> %va, <4 x i32> undef, <4 x i32> <i32 0, i32 1, i32 2, i32 3>\n  store <4 x i32> %r, <4 x i32>* undef",
+       "%r = shufflevector <4 x i32> %va, <4 x i32> %va, <2 x i32> <i32 0, i32 undef>\n  store <2 x i32> %r, <2 x i32>* undef",
+       "%r = shufflevector <4 x i32> %va, <4 x i32> poison, <8 x i32> zeroinitializer\n  store <8 x i32> %r, <8 x i32>* undef",
+       "%r = shufflevector <vscale x 2 x i32> %sa, <vscale x 2 x i32> undef, <vscale x 2 x i32> zeroinitializer\n  store <vscale x 2 x i32> %r, <vscale x 2 x i32>* undef",
+       "%r = extractvalue {i32, float} %agg, 0\n  store i32 %r, i32* undef", "%r = extractvalue [2 x i32] %arr, 1\n  store i32 %r, i32* undef",
+       "%r = insertvalue {i32, float} %agg, float %x, 1\n  store {i32, float} %r, {i32, float}* undef", "%r = insertvalue {i32, float} undef, i32 %a, 0\n  store {i32, float} %r, {i32, float}* undef",
+       "%r = insertvalue {i32, {float, [2 x i32]}} undef, i32 7, 1, 1, 0\n  store {i32, {float, [2 x i32]}} %r, {i32, {float, [2 x i32]}}* undef",
+       "%r = va_arg i8* %p, i32\n  store i32 %r, i32* undef"
      >>) >>,
   {}, FALSE)
 
@@ -398,6 +398,7 @@ DIPrelude == DIPreludeWith("!{!3}")
 DIPairs(kind) == CASE kind = "DICompositeType" -> {<<"tag", "rank">>, <<"tag", "dataLocation">>, <<"tag", "associated">>, <<"tag", "allocated">>, <<"tag", "discriminator">>}
                     [] kind = "DILexicalBlock" -> {<<"line", "column">>}
                     [] kind = "DISubprogram" -> {<<"file", "line">>}
+                    [] kind = "DIEnumerator" -> {<<"value", "isUnsigned">>}
                     [] kind = "DISubrange" -> {<<"count", "upperBound">>, <<"count", "lowerBound">>}
                     [] OTHER -> {}
 DI(kind, distinct, fields) ==
@@ -428,7 +429,7 @@ DIFams == <<
        Slot("name", <<"", "name: \"p\"">>), Slot("scope", <<"", "scope: !13">>), Slot("file", <<"", "file: !1">>), Slot("line", <<"", "line: 2">>), Slot("baseType", <<"baseType: !2", "baseType: null">>),
        Slot("size", <<"", "size: 64">>), Slot("align", <<"", "align: 32">>), Slot("offset", <<"", "offset: 8">>), Slot("flags", <<"", "flags: DIFlagArtificial", "flags: DIFlagStaticMember">>),
        Slot("extraData", <<"", "extraData: i32 7">>), Slot("dwarfAddressSpace", <<"", "dwarfAddressSpace: 1", "dwarfAddressSpace: 0">>), Slot("annotations", <<"", "annotations: !8">>) >>),
-  DI("DIEnumerator", FALSE, << Slot("name", <<"name: \"A\"">>), Slot("value", <<"value: 1", "value: -1", "value: 0", "value: 9223372036854775807">>), Slot("isUnsigned", <<"", "isUnsigned: true">>) >>),
+  DI("DIEnumerator", FALSE, << Slot("name", <<"name: \"A\"">>), Slot("value", <<"value: 1", "value: -1", "value: 0", "value: 9223372036854775807", "value: 18446744073709551615">>), Slot("isUnsigned", <<"", "isUnsigned: true">>) >>),
   DI("DIExpression", FALSE, << Slot("ops", <<"", "DW_OP_deref", "DW_OP_plus_uconst, 4", "DW_OP_LLVM_fragment, 0, 8", "DW_OP_constu, 1, DW_OP_stack_value", "DW_OP_deref, DW_OP_plus_uconst, 8, DW_OP_LLVM_fragment, 8, 16",
         "DW_OP_LLVM_convert, 16, DW_ATE_signed, DW_OP_LLVM_convert, 32, DW_ATE_signed, DW_OP_stack_value", "DW_OP_LLVM_entry_value, 1", "DW_OP_LLVM_arg, 0, DW_OP_LLVM_arg, 1, DW_OP_plus">>) >>),
   DI("DIFile", FALSE, << Slot("filename", <<"filename: \"b.c\"", "filename: \"\"">>), Slot("directory", <<"directory: \"/x y\"", "directory: \"\"">>),
@@ -478,6 +479,7 @@ DIValid(kind, c) ==
                                    /\ (c.discriminator # "" => c.tag = "tag: DW_TAG_variant_part")
     [] kind = "DILexicalBlock" -> (c.column # "" => c.line # "")
     [] kind = "DISubprogram" -> (c.line # "" => c.file # "")
+    [] kind = "DIEnumerator" -> (c.value = "value: 18446744073709551615" => c.isUnsigned # "") /\ (c.value = "value: -1" => c.isUnsigned = "")
     [] OTHER -> TRUE
 
 ----------------------------------------------------------------------------
@@ -509,7 +511,11 @@ SPELL == Fam("spell",
        "@g = external global i32\n@h = extern_weak global i32\n@i = common global i32 0\n@j = private unnamed_addr constant [2 x i8] c\"a\\00\", align 1",
        "%0 = type { i32 }\n%1 = type { %0 }\n@g = global %1 zeroinitializer\n%named = type { %0*, %1* }\n@h = global %named zeroinitializer",
        "define <2 x i32> @f(<2 x i32> %v) {\n  %r = add <2 x i32> %v, <i32 1, i32 u0x10>\n  %s = shufflevector <2 x i32> %r, <2 x i32> undef, <2 x i32> <i32 1, i32 0>\n  ret <2 x i32> %s\n}",
-       "define i32 @f(i32 %x) {\n  switch i32 %x, label %d [ i32 0, label %a\n i32 u0x1000, label %a ]\na:\n  ret i32 1\nd:\n  ret i32 0\n}"
+       "define i32 @f(i32 %x) {\n  switch i32 %x, label %d [ i32 0, label %a\n i32 u0x1000, label %a ]\na:\n  ret i32 1\nd:\n  ret i32 0\n}",
+       "@a = global float 0x3FE0000000000001\n@b = global float 0x4000000000000001\n@c = global float 0xC004000000000001\n@d = global float 0x3FF8000010000000\n@e = global float 0.1\n@f = global half 0.1\n@g = global double 0.1",
+       "@a = global double 3.14159265358979323846264338327950288\n@b = global double 1e-400\n@c = global double 1e400\n@d = global float 16777217.0\n@e = global double 9007199254740993.0\n@f = global x86_fp80 0xK4000C90FDAA22168C235\n@g = global fp128 0xL8469898CC51701B84000921FB54442D1",
+       "!0 = !DIEnumerator(isUnsigned: true, value: 18446744073709551615, name: \"MAX\")\n!1 = !DIEnumerator(value: -9223372036854775808, name: \"MIN\")\n!e = !{!0, !1}",
+       "!0 = !DISubrange(upperBound: 9, lowerBound: 1)\n!1 = !DIFile(directory: \"/d\", filename: \"f.c\")\n!2 = !DIBasicType(encoding: DW_ATE_signed, size: 32, name: \"int\")\n!e = !{!0, !1, !2}"
      >>) >>,
   {}, FALSE)
 
@@ -537,11 +543,13 @@ Valid(F, c) ==
 Derive(F, c) == IF F.name = "gv" THEN GVDerive(c) ELSE [none |-> ""]
 PreludeOf(F) == IF F.name = "DISubprogram" THEN F.prelude \o DISPExtra ELSE F.prelude
 
-VARIABLES stage, fam, cfg
-vars == <<stage, fam, cfg>>
-Init == stage = 0 /\ fam = 0 /\ cfg = <<>>
-Next == \/ stage = 0 /\ fam' \in FamilyIdx /\ stage' = 1 /\ UNCHANGED cfg
+\* debug-info fields may be written in any order: every DI configuration is emitted in table order and reversed
+VARIABLES stage, fam, cfg, rev
+vars == <<stage, fam, cfg, rev>>
+Init == stage = 0 /\ fam = 0 /\ cfg = <<>> /\ rev = FALSE
+Next == \/ stage = 0 /\ fam' \in FamilyIdx /\ stage' = 1 /\ UNCHANGED <<cfg, rev>>
         \/ stage = 1 /\ cfg' \in {c \in Configs(Families[fam]) : Valid(Families[fam], c)} /\ stage' = 2 /\ UNCHANGED fam
+                      /\ rev' \in (IF Families[fam].full THEN BOOLEAN ELSE {FALSE})
 Spec == Init /\ [][Next]_vars
 
 \* Constructs of LLVM 14 that the in-memory IR of the library has no way to hold (no bfloat kind, no
@@ -563,7 +571,7 @@ EveryAltCovered ==
 
 Emit == stage' = 2 =>
   LET F == Families[fam'] IN
-  Serialize(ToJson([fam |-> F.name, prelude |-> PreludeOf(F), tmpl |-> F.tmpl, order |-> [k \in 1..Len(F.slots) |-> F.slots[k].n],
+  Serialize(ToJson([fam |-> F.name, prelude |-> PreludeOf(F), tmpl |-> F.tmpl, order |-> [k \in 1..Len(F.slots) |-> F.slots[IF rev' THEN Len(F.slots) + 1 - k ELSE k].n],
                     cfg |-> cfg', derived |-> Derive(F, cfg'), di |-> F.full, repr |-> Representable(F, cfg')]) \o "\n", "modules.ndjson",
             [format |-> "TXT", charset |-> "UTF-8", openOptions |-> <<"WRITE", "CREATE", "APPEND">>]).exitValue = 0
 =============================================================================
